@@ -11,7 +11,7 @@ import math
 from typing import Any, Optional, SupportsInt, Union
 
 from elementpath.aliases import XPath2ParserType
-from elementpath.helpers import FloatArgType, NUMERIC_INF_OR_NAN, INVALID_NUMERIC, \
+from elementpath.helpers import FloatArgType, NUMERIC_INF_OR_NAN, \
     LazyPattern, collapse_white_spaces
 from .any_types import AnyAtomicType
 
@@ -50,7 +50,7 @@ class Float(float, AnyAtomicType):
                         return float_nan
                     except NameError:
                         pass
-            elif value.lower() in INVALID_NUMERIC:
+            elif cls.pattern.match(value) is None:
                 raise cls._invalid_value(value)
         elif math.isnan(value):
             try:
@@ -178,6 +178,13 @@ class Integer(int, AnyAtomicType):
 
     _lower_bound: Optional[int] = None
     _higher_bound: Optional[int] = None
+
+    def __new__(cls, value: Union[str, SupportsInt]) -> 'Integer':
+        if isinstance(value, str):
+            value = collapse_white_spaces(value)
+            if cls.pattern.match(value) is None:
+                raise cls._invalid_value(value)
+        return super().__new__(cls, value)  # type: ignore[arg-type,unused-ignore]
 
     def __init__(self, value: Union[str, SupportsInt]) -> None:
         """
